@@ -76,6 +76,62 @@ CLAIMS['C03'] = dict(
     technique="Lean 4 proof (wrapper/fast-path/deque lemmas via the spec refinement) + differential check over representation pairs",
     design_ref="§5 C03")
 
+CLAIMS['C08'] = dict(
+    text=("Model schemaOf (the built-in BorshSchema impls and the schema derive, driven by the same type description "
+          "as the codec model) with kernel-checked theorems C08_int_widths / C08_float_widths / "
+          "C08_int_size_matches_encoder (schema primitive sizes equal the encoder's widths, every kind), "
+          "C08_seq_definition / C08_array_definition (length width 4 + full u32 range vs width 0 + single length), "
+          "C08_struct_fields_skip, C08_closed_examples (closedness and self-validation, kernel-evaluated on nested "
+          "types). Tie: for every catalogue type with a schema the *bytes of the real container* are compared with "
+          "the bytes of schemaOf(type description), so declarations, definitions, field/variant names, tag values "
+          "and widths are all compared; oracle: no missing definition, container round-trips. Partial: the general "
+          "closedness/describes theorems (induction over the universe) are not proved yet."),
+    technique="Lean 4 model of schema generation with kernel-checked lemmas + byte-exact differential check of containers",
+    design_ref="§5 C08")
+CLAIMS['C09'] = dict(
+    text=("Kernel-checked theorems: C09_exact_when_ok (for EVERY container - cycles, dangling names, hostile widths - "
+          "a reported maximum equals the specification's maximum specMax, by induction on the evaluation), "
+          "C09_ok_fits, C09_count_scales (the element-count multiplier is applied at every nesting level), "
+          "C09_checked_arith, C09_F1_array_of_enum (regression witness of the repaired finding F1). Differential run: "
+          "containers of ~150 Rust types and thousands of generated hostile containers (decoded by the real code from "
+          "bytes) through max_serialized_size vs the model; every reported result is also judged by specMax "
+          "(contchk lines: a disagreement there is a property violation); oracle: no value encodes longer than the "
+          "reported bound, no panic. Partial: the error direction (overflow/recursive/missing reported exactly when "
+          "...) is tied by the specMax comparison, not yet by a theorem."),
+    technique="Lean 4 proof (exactness by induction on the fuelled evaluation) + differential check incl. specification verdict per case",
+    design_ref="§5 C09")
+CLAIMS['C10'] = dict(
+    text=("Kernel-checked theorems: C10_length_width_iff (check_length_width accepts exactly widths 0,1,2,4,8 that "
+          "are wide enough), C10_length_width_defect (a reported width error names the checked declaration and the "
+          "defect is real), C10_missing_root, C10_F3_full_range_no_panic and C10_F2_repeated_zero_sized_member "
+          "(regression witnesses of the repaired findings F3/F2). Differential run: validate() of the real code vs "
+          "the model on containers of all schema types and thousands of generated hostile containers (extreme "
+          "ranges, widths 0..255, cycles, repeated zero-sized members, dangling names), panics caught; compared: "
+          "Ok/Err, error variant and the declaration named. Partial: totality and the iff with the declarative "
+          "well-formedness predicate are not yet theorems."),
+    technique="Lean 4 model of validate/is_zero_size with kernel-checked lemmas + differential check on generated containers",
+    design_ref="§5 C10")
+CLAIMS['C14'] = dict(
+    text=("Kernel-checked theorems for every owned collection kind: C14_ser_refused_{seq,deque,set,map} (refused with "
+          "the public InvalidData message and NOTHING written), C14_de_refused_{seq,set,map} (refused over ANY reader "
+          "state, i.e. before any length is read), C14_fixed_ok_array, C14_agrees_with_schema_examples / "
+          "C14_agrees_nonzero_examples (run-time refusal and ZSTSequence verdict agree; kernel-evaluated on 7 "
+          "zero-sized shapes incl. the F2 witness). Differential run over 28 collection types (incl. VecDeque, "
+          "LinkedList, hash/btree/index sets and maps, 3 hashers) x zero-sized element shapes x claimed lengths "
+          "{0,1,2,2^32-1}, both directions, with counting reader/writer (0 read calls, 0 bytes written)."),
+    technique="Lean 4 proof (refusal lemmas over an arbitrary reader) + differential check with counting reader/writer",
+    design_ref="§5 C14")
+CLAIMS['C17'] = dict(
+    text=("Kernel-checked theorems: C17_accept_implies_same_schema (whenever try_from_slice_with_schema::<U> accepts, "
+          "the bytes begin with a well-formed container EQUAL to U's schema, the value follows and nothing is left - "
+          "contrapositive: a foreign or meaning-changing corrupted schema is rejected), C17_mismatch_rejected, "
+          "C17_insert_sorted_head (definitions are kept in ascending name order). Differential run: 400 ordered type "
+          "pairs (T written, U read) x values vs the model; single-bit corruptions of the embedded schema; thousands "
+          "of generated containers round-tripped through the real to_vec/from_slice (equal container, identical "
+          "bytes). Partial: the container round-trip theorem needs the map case of C01 (not proved yet)."),
+    technique="Lean 4 proof (acceptance implies schema equality) + differential check over type pairs and generated containers",
+    design_ref="§5 C17")
+
 NOT_YET = {
 }
 
